@@ -165,6 +165,7 @@ type rrWorld struct {
 	model     pool
 	ops       []*rrOp
 	mutations int
+	failMeter bool // the next meter the rebalancer asks for cannot be built
 }
 
 func (w *rrWorld) admin() interface {
@@ -231,7 +232,13 @@ func newRRWorld(r *simkit.Run, viaRB, sticky, fine bool) *rrWorld {
 	}
 	w.rr = rr
 	if viaRB {
-		ropts := []roundrobin.RebalancerOption{roundrobin.RebalancerMeter(func() (roundrobin.Meter, error) { return neverReady{}, nil })}
+		ropts := []roundrobin.RebalancerOption{roundrobin.RebalancerMeter(func() (roundrobin.Meter, error) {
+			if w.failMeter {
+				w.failMeter = false
+				return nil, errMeter
+			}
+			return neverReady{}, nil
+		})}
 		if sticky {
 			ropts = append(ropts, roundrobin.RebalancerStickySession(roundrobin.NewStickySession("aff")))
 		}
@@ -245,6 +252,8 @@ func newRRWorld(r *simkit.Run, viaRB, sticky, fine bool) *rrWorld {
 }
 
 type mutKey struct{}
+
+var errMeter = fmt.Errorf("simulated: meter cannot be built")
 
 func (w *rrWorld) spawn(op *rrOp, fn func()) *rrOp {
 	w.ops = append(w.ops, op)
@@ -260,7 +269,9 @@ func (w *rrWorld) opUpsert(u *url.URL, hasW bool, wt int) *rrOp {
 	op := &rrOp{kind: "upsert", key: keyOf(u), hasW: hasW, w: wt, u: mustURL(u.String())}
 	return w.spawn(op, func() {
 		var err error
-		if hasW {
+		if hasW && wt == -99 {
+			err = w.admin().UpsertServer(u) // expected to fail for another reason (meter); the model treats it as refused
+		} else if hasW {
 			err = w.admin().UpsertServer(u, roundrobin.Weight(wt))
 		} else {
 			err = w.admin().UpsertServer(u)
